@@ -1180,13 +1180,15 @@ fn c05(r: &mut Rng, fonts: &[FontInfo], n: u64, tr: &mut Option<std::fs::File>) 
             }
             let mk = |n: usize, pre: bool, post: bool| Req { text: (0..n).map(|i| (c, i as u32)).collect(), pre: if pre { vec![c] } else { vec![] }, post: if post { vec![c] } else { vec![] }, flags: 0, ..Default::default() };
             let reqs = vec![mk(2, true, true), mk(2, false, false), mk(1, true, false), mk(1, false, false), mk(3, false, true), mk(2, false, false)];
+          // two histories: contexts set at most once per step; and the caller changing its mind within a step
+          for twice in [false, true] {
             let res = catch(std::panic::AssertUnwindSafe(|| {
                 let mut ub = UnicodeBuffer::new();
                 let mut outs = Vec::new();
-                for (k, rq) in reqs.iter().enumerate() {
+                for rq in reqs.iter() {
                     // the caller changes its mind: a longer context first, then the real one (also the empty one) - only the
                     // last call counts
-                    if k % 2 == 1 {
+                    if twice {
                         let long: String = std::iter::repeat(char::from_u32(c).unwrap()).take(4).collect();
                         ub.set_pre_context(&long);
                         ub.set_post_context(&long);
@@ -1212,12 +1214,13 @@ fn c05(r: &mut Rng, fonts: &[FontInfo], n: u64, tr: &mut Option<std::fs::File>) 
                 }));
                 if let Ok(f) = fresh {
                     if f != outs[k] {
-                        cnt.fail("C05", "recycled-buffer-keeps-context", &fi.path, rq, &format!("step={} of the context history on U+{:04X} fresh={} recycled={}", k, c, fmt_g(&f), fmt_g(&outs[k])));
+                        cnt.fail("C05", "recycled-buffer-keeps-context", &fi.path, rq, &format!("step={} of the context history on U+{:04X} (contexts set twice per step: {}) fresh={} recycled={}", k, c, twice, fmt_g(&f), fmt_g(&outs[k])));
                         break;
                     }
                 }
             }
             cnt.bump("context_histories");
+          }
         }
     }
     // (b) threads sharing Face and ShapePlan
